@@ -5,7 +5,7 @@
 -/
 import BufrModel.Lemmas.CompilerSim
 namespace Bufr.C08D
-open Bufr
+open Bufr Bufr.C08
 
 def wfDD (T : Tables) : DDesc → Prop
   | .plain e => e.id < 100000 ∧ T.b e.id = some e
@@ -203,5 +203,298 @@ def TWFL (T : Tables) : List Desc → Prop
   | [] => True
   | d :: ds => TWF T d ∧ TWFL T ds
 end
+
+theorem wf_cValue (T : Tables) (e : Elem) (c : CRegs) (he : elemOk T e) : WFStmt T (cValue e c) := by
+  unfold cValue
+  cases e.kind with
+  | string => simp only [WFStmt, wfDD]; exact he
+  | codeflag => simp only [WFStmt, wfDD]; exact Or.inl he
+  | numeric =>
+    simp only
+    split <;> (simp only [WFStmt, wfDD]; exact he)
+
+theorem wf_cElement (T : Tables) (e : Elem) (c : CRegs) (he : elemOk T e) : WFList T (cElement e c).1 := by
+  simp only [cElement]
+  rw [wfList_append, wfList_append]
+  refine ⟨?_, ?_, ?_⟩
+  · split
+    · simp only [WFList, WFStmt, and_true]; exact Or.inr (Or.inl ⟨_, rfl⟩)
+    · trivial
+  · split <;> simp [WFList, WFStmt]
+  · exact ⟨wf_cValue T e c he, trivial⟩
+
+theorem wf_cBitmapDefinition (T : Tables) (id : Nat) (c : CRegs) : WFList T (cBitmapDefinition id c).1 := by
+  unfold cBitmapDefinition
+  cases c.bitmapDef <;> simp only [] <;> repeat' split
+  all_goals simp [WFList, WFStmt]
+
+theorem wf_cOperator (T : Tables) (id : Nat) (c : CRegs) (p : List Stmt) (c1 : CRegs)
+    (h : cOperator id c = .ok (p, c1)) : WFList T p := by
+  unfold cOperator at h
+  simp only [] at h
+  by_cases h201 : id / 1000 = 201
+  · rw [if_pos h201] at h; cases h; trivial
+  rw [if_neg h201] at h
+  by_cases h202 : id / 1000 = 202
+  · rw [if_pos h202] at h; cases h; trivial
+  rw [if_neg h202] at h
+  by_cases h203 : id / 1000 = 203
+  · rw [if_pos h203] at h
+    by_cases hy : id % 1000 = 255
+    · rw [if_pos hy] at h; cases h; trivial
+    rw [if_neg hy] at h
+    by_cases hy0 : id % 1000 = 0
+    · rw [if_pos hy0] at h; cases h; simp [WFList, WFStmt]
+    rw [if_neg hy0] at h; cases h; trivial
+  rw [if_neg h203] at h
+  by_cases h204 : id / 1000 = 204
+  · rw [if_pos h204] at h
+    by_cases hy0 : id % 1000 = 0
+    · rw [if_pos hy0] at h
+      by_cases hs : c.assocStack = []
+      · rw [if_pos hs] at h; cases h
+      · rw [if_neg hs] at h; cases h; trivial
+    · rw [if_neg hy0] at h; cases h; trivial
+  rw [if_neg h204] at h
+  by_cases h205 : id / 1000 = 205
+  · rw [if_pos h205] at h; cases h
+    simp only [WFList, WFStmt, wfDD, and_true]; omega
+  rw [if_neg h205] at h
+  by_cases h206 : id / 1000 = 206
+  · rw [if_pos h206] at h; cases h; trivial
+  rw [if_neg h206] at h
+  by_cases h207 : id / 1000 = 207
+  · rw [if_pos h207] at h; cases h; trivial
+  rw [if_neg h207] at h
+  by_cases h208 : id / 1000 = 208
+  · rw [if_pos h208] at h; cases h; trivial
+  rw [if_neg h208] at h
+  by_cases h221 : id / 1000 = 221
+  · rw [if_pos h221] at h; cases h; trivial
+  rw [if_neg h221] at h
+  by_cases hmk : id / 1000 = 222 ∨ id / 1000 = 223 ∨ id / 1000 = 224 ∨ id / 1000 = 225 ∨ id / 1000 = 232
+  · rw [if_pos hmk] at h
+    by_cases hy0 : id % 1000 = 0
+    · rw [if_pos hy0] at h; cases h
+      simp only [WFList, WFStmt, wfDD, and_true, true_and]; omega
+    · rw [if_neg hy0] at h; cases h
+      rw [wfList_append]
+      refine ⟨?_, ?_⟩
+      · split
+        · simp only [WFList, WFStmt, and_true]; exact Or.inr (Or.inl ⟨_, rfl⟩)
+        · trivial
+      · simp only [WFList, WFStmt, and_true]; omega
+  rw [if_neg hmk] at h
+  by_cases h235 : id / 1000 = 235
+  · rw [if_pos h235] at h; cases h; simp [WFList, WFStmt]
+  rw [if_neg h235] at h
+  by_cases h236 : id / 1000 = 236
+  · rw [if_pos h236] at h; cases h
+    simp only [WFList, WFStmt, wfDD, and_true]; omega
+  rw [if_neg h236] at h
+  by_cases h237 : id / 1000 = 237
+  · rw [if_pos h237] at h
+    by_cases hy0 : id % 1000 = 0
+    · rw [if_pos hy0] at h; cases h
+      simp only [WFList, WFStmt, wfDD, and_true, true_and]; omega
+    · rw [if_neg hy0] at h; cases h
+      rw [wfList_append]
+      refine ⟨?_, ?_⟩
+      · split <;> simp [WFList, WFStmt]
+      · simp only [WFList, WFStmt, wfDD, and_true]; omega
+  rw [if_neg h237] at h; cases h
+
+
+theorem newRefTarget_elem {n : Nat} {d : Desc} {e : Elem} (h : newRefTarget n d = some e) : d = .elem e := by
+  unfold newRefTarget at h
+  split at h
+  · cases d <;> simp at h
+    rw [h]
+  · cases h
+
+theorem cPre_wf (T : Tables) (d : Desc) (kc : CRegs → CM COut) (hd : TWF T d)
+    (hk : ∀ c p c1, kc c = .ok (p, c1) → WFList T p)
+    (c0 : CRegs) (p : List Stmt) (c1 : CRegs) (h : cPre d kc c0 = .ok (p, c1)) : WFList T p := by
+  unfold cPre at h
+  simp only [] at h
+  generalize (if c0.dnpCount ≠ 0 then { c0 with dnpCount := c0.dnpCount - 1 } else c0) = c at h
+  split at h
+  · cases h; trivial
+  · split at h
+    · next e he =>
+      have hde := newRefTarget_elem he
+      subst hde
+      split at h
+      · cases h
+      · cases h
+        simp only [WFList, WFStmt, wfDD, and_true]
+        simpa only [TWF, elemOk] using hd
+    · split at h
+      · cases h
+        simp only [WFList, WFStmt, and_true]
+        exact Or.inr (Or.inr ⟨_, rfl⟩)
+      · cases h1 : kc (cBitmapDefinition d.id c).2 with
+        | error e => rw [h1] at h; cases h
+        | ok y =>
+          obtain ⟨p2, c2⟩ := y
+          rw [h1] at h; cases h
+          rw [wfList_append]
+          exact ⟨wf_cBitmapDefinition T d.id c, hk _ _ _ h1⟩
+
+def DispWF (T : Tables) (chk : Nat) (d : Desc) : Prop :=
+  ∀ c p c1, cDispatch chk d c = .ok (p, c1) → WFList T p
+def ListWF (T : Tables) (chk : Nat) (t : List Desc) : Prop :=
+  ∀ c p c1, compileList chk t c = .ok (p, c1) → WFList T p
+
+theorem wf_cons (T : Tables) (chk : Nat) (d : Desc) (ds : List Desc) (hd : TWF T d) (h1 : DispWF T chk d)
+    (h2 : ListWF T chk ds) : ListWF T chk (d :: ds) := by
+  intro c p c1 h
+  simp only [compileList] at h
+  cases e1 : compile1 chk d c with
+  | error e => rw [e1] at h; cases h
+  | ok y =>
+    obtain ⟨p1, c2⟩ := y
+    rw [e1] at h
+    simp only at h
+    cases e2 : compileList chk ds c2 with
+    | error e => rw [e2] at h; cases h
+    | ok z =>
+      obtain ⟨p2, c3⟩ := z
+      rw [e2] at h; cases h
+      rw [wfList_append]
+      rw [compile1_eq] at e1
+      exact ⟨cPre_wf T d _ hd h1 c p1 c2 e1, h2 _ _ _ e2⟩
+
+theorem wf_fixed (T : Tables) (chk : Nat) (id : Nat) (ms : List Desc) (h2 : ListWF T chk ms) :
+    DispWF T chk (.fixedRep id ms) := by
+  intro c p c1 h
+  simp only [cDispatch] at h
+  cases e1 : compileList chk ms c with
+  | error e => rw [e1] at h; cases h
+  | ok y =>
+    obtain ⟨body, c2⟩ := y
+    rw [e1] at h
+    simp only at h
+    split at h
+    · cases h
+    · cases h
+      simp only [WFList, WFStmt, and_true]
+      exact h2 _ _ _ e1
+
+theorem wf_delayed (T : Tables) (chk : Nat) (id : Nat) (f : Desc) (ms : List Desc) (hf : TWF T f)
+    (h2 : ListWF T chk ms) : DispWF T chk (.delayedRep id f ms) := by
+  intro c p c1 h
+  cases f with
+  | elem fe =>
+    simp only [cDispatch] at h
+    cases e1 : compileList chk ms (cElement fe c).2 with
+    | error e => rw [e1] at h; cases h
+    | ok y =>
+      obtain ⟨body, c2⟩ := y
+      rw [e1] at h
+      simp only at h
+      split at h
+      · cases h
+      · cases h
+        rw [wfList_append]
+        refine ⟨wf_cElement T fe c (by simpa only [TWF] using hf), ?_⟩
+        simp only [WFList, WFStmt, and_true]
+        exact h2 _ _ _ e1
+  | _ => simp only [cDispatch] at h; cases h
+
+theorem wf_op (T : Tables) (chk : Nat) (id : Nat) : DispWF T chk (.op id) := by
+  intro c p c1 h
+  simp only [cDispatch] at h
+  split at h
+  · cases h
+  · exact wf_cOperator T id c p c1 h
+
+mutual
+theorem listWF (T : Tables) (chk : Nat) : ∀ (t : List Desc), TWFL T t → ListWF T chk t
+  | [], _ => fun c p c1 h => by simp only [compileList] at h; cases h; trivial
+  | d :: ds, h => wf_cons T chk d ds (by simp only [TWFL] at h; exact h.1) (dispWF T chk d (by simp only [TWFL] at h; exact h.1))
+      (listWF T chk ds (by simp only [TWFL] at h; exact h.2))
+theorem dispWF (T : Tables) (chk : Nat) : ∀ (d : Desc), TWF T d → DispWF T chk d
+  | .elem e, h => fun c p c1 hc => by
+    simp only [cDispatch] at hc; cases hc
+    exact wf_cElement T e c (by simpa only [TWF] using h)
+  | .undefElem _, _ => fun c p c1 hc => by simp only [cDispatch] at hc; cases hc
+  | .undefSeq _, _ => fun c p c1 hc => by simp only [cDispatch] at hc; cases hc
+  | .fixedRep id ms, h => wf_fixed T chk id ms (listWF T chk ms (by simpa only [TWF] using h))
+  | .delayedRep id f ms, h => wf_delayed T chk id f ms (by simp only [TWF] at h; exact h.1)
+      (listWF T chk ms (by simp only [TWF] at h; exact h.2))
+  | .op id, _ => wf_op T chk id
+  | .seq _ ms, h => fun c p c1 hc => by
+    simp only [cDispatch] at hc
+    exact listWF T chk ms (by simpa only [TWF] using h) c p c1 hc
+end
+
+/-- every program the compiler produces from a template over `T` is well formed -/
+theorem compile_wf (T : Tables) (t : List Desc) (ht : TWFL T t) (prog : List Stmt) (h : compile t = .ok prog) :
+    WFList T prog := by
+  unfold compile at h
+  cases e1 : compileList 0 t {} with
+  | error e => rw [e1] at h; cases h
+  | ok y =>
+    obtain ⟨p, c1⟩ := y
+    rw [e1] at h; cases h
+    exact listWF T 0 t ht _ _ _ e1
+
+/-- Table B is keyed by the id of its entries, all of which are element ids -/
+def TablesOk (T : Tables) : Prop := ∀ id e, T.b id = some e → e.id = id ∧ id < 100000
+
+theorem twf_lookupB (T : Tables) (hT : TablesOk T) (id : Nat) : TWF T (T.lookupB id) := by
+  unfold Tables.lookupB
+  cases h : T.b id with
+  | none => simp only [TWF]
+  | some e =>
+    obtain ⟨h1, h2⟩ := hT id e h
+    simp only [TWF, elemOk]
+    rw [h1]; exact ⟨h2, h⟩
+
+theorem bind_ok {α β : Type} {x : CM α} {f : α → CM β} {t : β} (h : (x >>= f) = .ok t) :
+    ∃ a, x = .ok a ∧ f a = .ok t := by
+  cases x with
+  | error e => cases h
+  | ok a => exact ⟨a, rfl, h⟩
+
+theorem twfl_buildD (T : Tables) (hT : TablesOk T) (depth : Nat) (ids : List Nat) :
+    ∀ t, buildD T depth ids = .ok t → TWFL T t := by
+  fun_induction buildD T depth ids <;> intro t h
+  case case1 => cases h; trivial
+  case case2 ih =>
+    obtain ⟨tl, h1, h2⟩ := bind_ok h
+    cases h2
+    exact ⟨trivial, ih tl h1⟩
+  case case3 => cases h
+  case case4 ih2 ih1 =>
+    obtain ⟨ms, h1, h2⟩ := bind_ok h
+    obtain ⟨tl, h3, h4⟩ := bind_ok h2
+    cases h4
+    exact ⟨by simp only [TWF]; exact ih2 ms h1, ih1 tl h3⟩
+  case case5 ih =>
+    obtain ⟨tl, h1, h2⟩ := bind_ok h
+    cases h2
+    exact ⟨trivial, ih tl h1⟩
+  case case6 => cases h
+  case case7 ih2 ih1 =>
+    obtain ⟨ms, h1, h2⟩ := bind_ok h
+    obtain ⟨tl, h3, h4⟩ := bind_ok h2
+    cases h4
+    exact ⟨by simp only [TWF]; exact ⟨twf_lookupB T hT _, ih2 ms h1⟩, ih1 tl h3⟩
+  case case8 ih2 ih1 =>
+    obtain ⟨ms, h1, h2⟩ := bind_ok h
+    obtain ⟨tl, h3, h4⟩ := bind_ok h2
+    cases h4
+    exact ⟨by simp only [TWF]; exact ih2 ms h1, ih1 tl h3⟩
+  case case9 ih =>
+    obtain ⟨tl, h1, h2⟩ := bind_ok h
+    cases h2
+    exact ⟨twf_lookupB T hT _, ih tl h1⟩
+
+/-- templates built from descriptor ids over well-keyed tables are well formed -/
+theorem twfl_build (T : Tables) (hT : TablesOk T) (ids : List Nat) (t : List Desc) (h : build T ids = .ok t) :
+    TWFL T t := twfl_buildD T hT _ ids t h
+
 
 end Bufr.C08D
